@@ -868,10 +868,17 @@ func c19DiffClass(view, fin map[string]string) string {
 // refCycle is one reference pull interval as the harness observes it: sleep one pull
 // interval, then one successful pull through the cluster's own client (the path the
 // syncer's ticker pull takes).
-func (cr *c19Run) refCycle() bool {
+func (cr *c19Run) refCycle() (map[string]c19RawKV, bool) {
 	time.Sleep(cr.interval)
-	_, err := cr.g.c.GetRawPrefix(cr.root)
-	return err == nil
+	kvs, err := cr.g.c.GetRawPrefix(cr.root)
+	if err != nil {
+		return nil, false
+	}
+	m := make(map[string]c19RawKV, len(kvs))
+	for k, kv := range kvs {
+		m[k] = c19RawOf(kv)
+	}
+	return m, true
 }
 
 // settle waits (softly, no verdict) until every consumer has the current content.
@@ -1062,6 +1069,7 @@ func (cr *c19Run) converge() (fin map[string]c19RawKV, finRev int64, viols []c19
 			switch {
 			case c19EqKV(view, want):
 				x.done = true
+				cr.r.Eval(1)
 				cr.r.Count("subscriptions_converged", 1)
 				switch {
 				case x.total == 0:
@@ -1099,7 +1107,18 @@ func (cr *c19Run) converge() (fin map[string]c19RawKV, finRev int64, viols []c19
 			cr.r.Inconclusive(fmt.Sprintf("case %d (%s): convergence watchdog fired with %d subscription(s) still differing but not silent for %d cycles", cr.idx, cr.cs.Kind, open, c19StuckCycles))
 			break
 		}
-		if cr.refCycle() {
+		if cur, ok := cr.refCycle(); ok {
+			if !c19EqRaw(cur, fin) {
+				// a write whose client call had timed out was applied late: the final
+				// content is what the store holds now; start counting again
+				cr.r.Count("final_content_moved_during_convergence", 1)
+				fin = cur
+				viols = nil
+				for i, s := range subs {
+					state[i] = st{lastCount: s.count()}
+				}
+				continue
+			}
 			for i := range state {
 				if !state[i].done {
 					state[i].since++
@@ -1111,15 +1130,21 @@ func (cr *c19Run) converge() (fin map[string]c19RawKV, finRev int64, viols []c19
 	// stay two more intervals: a syncer that re-sends or keeps sending shows up here
 	cr.refCycle()
 	cr.refCycle()
-	// the store must not have moved during the phase (otherwise the harness is wrong)
-	if cur, _, err := cr.current(); err == nil {
-		for _, s := range subs {
-			if !c19EqKV(c19Project(cur, s), c19Project(fin, s)) {
-				cr.abort = "store content changed during the convergence phase (harness problem)"
-			}
-		}
+	// the store must not have moved behind the verdicts' back
+	cur, rv, err := cr.current()
+	if err != nil {
+		cr.abort = "final content not readable after the convergence phase: " + err.Error()
+		return fin, finRev, nil
 	}
-	return fin, finRev, viols
+	if !c19EqRaw(cur, fin) {
+		cr.r.Count("final_content_moved_during_convergence", 1)
+		if len(viols) > 0 {
+			cr.abort = "store content still moving while a convergence verdict was due"
+			viols = nil
+		}
+		fin = cur
+	}
+	return fin, rv, viols
 }
 
 func c19KeysOf(m map[string]string) []string {
@@ -1150,12 +1175,24 @@ func (cr *c19Run) safety(s *c19Sub) (viols []c19Viol) {
 		if i > 0 {
 			d["previous_snapshot"] = c19KeysOf(deliv[i-1].KV)
 		}
+		// the store's distinct contents (as this subscription sees them) from the lower bound on
+		var hist []string
+		var prev map[string]string
+		for r := lo; r <= t.last() && len(hist) < 25; r++ {
+			c := c19Project(t.at(r), s)
+			if prev == nil || !c19EqKV(c, prev) {
+				hist = append(hist, fmt.Sprintf("rev %d: %v", r, c19KeysOf(c)))
+				prev = c
+			}
+		}
+		d["store_contents_from_lower_bound"] = hist
 		return d
 	}
 	skipped := 0
 	for i := range deliv {
 		d := &deliv[i]
 		cr.r.Count("deliveries_checked", 1)
+		cr.r.Eval(1)
 		if d.Bad != "" {
 			x := excerpt(i)
 			x["problem"] = d.Bad
@@ -1325,7 +1362,11 @@ func (cr *c19Run) run() bool {
 		return true
 	}
 
-	// ground truth: content at every revision of the case
+	// ground truth: content at every revision of the case, up to the revision reached
+	// after every syncer goroutine is gone
+	if rv, err := g.waitRev(c19HarnessTimeout); err == nil && rv > finRev {
+		finRev = rv
+	}
 	if err := g.extend(cr.truth, finRev); err != nil {
 		if err == errC19TruthLost {
 			return false
@@ -1351,7 +1392,7 @@ func (cr *c19Run) run() bool {
 	for _, v := range viols {
 		v.detail["case_kind"] = cr.cs.Kind
 		v.detail["ending"] = cr.cs.Ending
-		v.detail["case"] = cr.cs
+		v.detail["z_case_script"] = cr.cs
 		v.detail["key_root"] = cr.root
 		r.Violation(v.sig, v.detail)
 	}
